@@ -47,6 +47,18 @@ def configs(tier):
                 out.append(dict(cls='Uniform', k=k, st=st, p=None, depth=k + dd - 1, mode=mode))
                 for p in ('default', 0, 0.5, 1, 1.0):
                     out.append(dict(cls='Geometric', k=k, st=st, p=p, depth=k + dd, mode=mode))
+    # checkpoint / restore: the storage is deep-copied (or pickled and restored) after t_f updates, the stream continues on the
+    # copy; the copy must behave like the storage itself and the original must not change any more
+    for kind in ('deepcopy', 'pickle'):
+        for st in (True, False):
+            for t_f in (1, 3):
+                out.append(dict(cls='Batch', k=None, st=st, p=None, depth=5, mode='fork', fork=(t_f, kind)))
+                out.append(dict(cls='Sequence', k=1, st=st, p=None, depth=4, mode='fork', fork=(t_f, kind)))
+                for k in (2, 3):
+                    out.append(dict(cls='Interval', k=k, st=st, p=None, depth=k + 3, mode='fork', fork=(t_f, kind)))
+                    out.append(dict(cls='Uniform', k=k, st=st, p=None, depth=k + 2, mode='fork', fork=(t_f, kind)))
+                    for p in ('default', 1):
+                        out.append(dict(cls='Geometric', k=k, st=st, p=p, depth=k + 2, mode='fork', fork=(t_f, kind)))
     for expl in ('pfi', 'sage'):
         for storage, k in (('Uniform', 2), ('Geometric', 2), ('Interval', 2), ('Batch', None)):
             for strategy in ('joint', 'product'):
@@ -123,7 +135,7 @@ def check_state(cfg, storage, hist, tag):
 
 def driver_for(cfg, obs):
     depth = cfg['depth']
-    unique = cfg['mode'] in ('unique', 'ynone')
+    unique = cfg['mode'] in ('unique', 'ynone', 'fork')
 
     def driver(run):
         storage = make(cfg)
@@ -133,7 +145,14 @@ def driver_for(cfg, obs):
         states = obs['states']
         edges = obs['edges']
         states.add(hash(prev))
+        orig = orig_hist = None
         for t in range(depth):
+            if cfg.get('fork') and t == cfg['fork'][0]:
+                import copy as _copy
+                import pickle as _pickle
+                orig, orig_hist = storage, list(hist)
+                storage = _copy.deepcopy(storage) if cfg['fork'][1] == 'deepcopy' else _pickle.loads(_pickle.dumps(storage))
+                check_state(cfg, storage, hist, 'copy')
             if unique:
                 x = {'id': t, 'v': t % 2}
             else:
@@ -157,6 +176,10 @@ def driver_for(cfg, obs):
                 else:
                     slot = [i for i in range(len(after)) if after[i] != before[i]]
                     pattern.append(str(slot[0]) if len(slot) == 1 else 'm')
+        if orig is not None:
+            # the object the copy was taken from received nothing after the fork
+            check_state(dict(cfg, mode=f"original object, {cfg['fork'][1]} taken after {cfg['fork'][0]} updates and the COPY fed "
+                                       f"{depth - cfg['fork'][0]} more"), orig, orig_hist, 'orig')
         return ''.join(pattern), tuple(fz(r) for r in list(storage.get_data()[0]))
     return driver
 
